@@ -562,6 +562,11 @@ theorem gcxsKey_counterexample : ¬ Statement_gcxsKey := by
 theorem gcxsKeyFixed_width_independent (k : Int) (hk : intp.fits k) : gcxsKeyFixed k = .ok k := by
   simp [gcxsKeyFixed, castTo, wrap_of_fits hk]
 
+/-- how the library itself reaches the excluded region: flattening an array of `2 ^ 32` elements whose
+coordinates are `int32` (`x.sum()`, `x.reshape(-1)` of a 65536 × 65536 array) makes `reshape` choose
+`np.min_scalar_type(2 ^ 32) = uint64` -/
+theorem reshape_reaches_uint64 : reshapeTy i32 [4294967296] = some u64 ∧ Excluded_uint64 u64 := by decide
+
 /-! ## W16 `uint64` index arrays -/
 
 /-- **storedTy_fixed_not_uint64.** With the proposed fix no array keeps an unsigned 64-bit index dtype, so the
